@@ -298,6 +298,12 @@ class Explorer:
     def _default(self, i, n):
         if self.default == 'zero' or n <= 1:
             return 0
+        if isinstance(self.default, str) and self.default.startswith('zero:'):
+            # all-zero answers for the first T choice points (drives rejection
+            # samplers through all their retries), the mixed schedule afterwards
+            # (so that rejection loops over large populations terminate)
+            if i < int(self.default[5:]):
+                return 0
         x = (i * 0x9E3779B1 + self.default_seed * 0x85EBCA6B + 0x27D4EB2F) & 0xFFFFFFFF
         x ^= x >> 15
         x = (x * 0x2C1B3C6D) & 0xFFFFFFFF
